@@ -65,6 +65,34 @@ def logical_bodies(F, fn):
     return out
 
 
+def effective_bodies(F, fn, depth=0, seen=None):
+    """the logical bodies of fn plus those of the *private* helpers of the same type it calls (transitively): an async helper
+    is a coroutine of its own that the virtual inliner cannot splice into the awaiting body, so rules about "what this API
+    function does" look at the union."""
+    seen = seen if seen is not None else set()
+    out = []
+    if fn.key in seen or depth > 3:
+        return out
+    seen.add(fn.key)
+    for lb in logical_bodies(F, fn):
+        out.append(lb)
+        if not lb.built:
+            continue
+        for blk, t in lb.built.calls():
+            c = F.local_callee(lb, t)
+            if c is None:
+                continue
+            c = root_fn(F, c)
+            if c is root_fn(F, lb):
+                continue
+            if c.key in seen or c.vis in ("pub", "crate") or c.raw.get("impl_trait"):
+                continue
+            if (c.raw.get("self_ty") or "").split("<")[0] != (fn.raw.get("self_ty") or "").split("<")[0]:
+                continue
+            out += effective_bodies(F, c, depth + 1, seen)
+    return out
+
+
 def run(ctx):
     F = ctx.facts
     notify = find_notify_fn(F)
@@ -410,7 +438,7 @@ def r01_6(ctx, init):
     for name in ("next_now", "next_ref_now"):
         for f in by_name.get(name, []):
             found = False
-            for lb in logical_bodies(F, f):
+            for lb in effective_bodies(F, f):
                 b = inl(F, lb)
                 if not b:
                     continue
